@@ -869,13 +869,10 @@ theorem clean_fields (d : Node) (h : cleanNode d = true) :
 theorem serialStart_node (c : Cfg) (d : Node) (n : Nat) :
     (serialStart c d n).1 = d ∨ (serialStart c d n).1 = { d with index := 0 } ∨ ∃ r, (serialStart c d n).1 = { d with remainTimes := r } := by
   unfold serialStart
-  split
-  · exact Or.inl rfl
-  · exact Or.inr (Or.inl rfl)
-  · split
-    · exact Or.inl rfl
-    · exact Or.inr (Or.inr ⟨_, rfl⟩)
-  · exact Or.inl rfl
+  split <;> first
+    | exact Or.inl rfl
+    | exact Or.inr (Or.inl rfl)
+    | exact Or.inr (Or.inr ⟨_, rfl⟩)
 
 theorem started_finished (x : Node) (now : Nat) (h : x.st = .finished) : x.started now = x := by simp [Node.started, h]
 
